@@ -14,6 +14,11 @@ theorem scan_text (vs : List Small.Sql.V) (h : ∀ v, v ∈ vs → Small.Sql.isS
   Small.Sql.scan_text vs h hne
 
 /-- T1: the functions this property's mirror model follows have today the source text the model was written against. -/
-theorem tie : Tie.sameAll ["sql.Column.Scan", "sql.Column.Null", "sql.Column.String", "sql.Column.Float", "sql.Column.Int", "sql.Column.Bool", "sql.Column.Data", "sql.Insert", "sql.escape", "sql.ReadSQL", "sql.NewArgBuilder", "sql.StringToFloat", "sql.Int64ToBool", "qframe.QFrame.ToSQL"] = true := by decide
+-- Tie audit (bin/selftest-ties): the following functions are not compared as text any more; every behaviour-changing edit of
+-- them makes a `gen_*_canon` theorem of this property's modules fail, renaming their locals or reformatting them changes nothing:
+-- `Column.Scan`, `Null`, `String`, `Float`, `Int`, `Bool`, `Data`, `StringToFloat`, `Int64ToBool`: `Gen.scanAst` / `Gen.scanMethods` / `Gen.dataAst` / `Gen.coerceAsts` (sast.go),
+-- `C19ScanGen.gen_scan_canon` + `gen_scan_semantics` / `gen_data_semantics`.
+-- Insert, escape, NewArgBuilder and ToSQL are regenerated in `Gen.insertAst` / `escapeAst` / `argBuilderClauses` / `toSqlAst` (C19SqlWriteGen), ReadSQL in `Gen.readSqlAst` (C19ReadSqlGen); nothing of C19 is compared as text any more.
+theorem tie : Tie.sameAll [] = true := by decide
 
 end QF.Props.C19
